@@ -73,7 +73,7 @@ def main():
                     continue
                 classes[cls] = classes.get(cls, 0) + 1
                 kept.append(f)
-            out['failures'].extend(kept[:10])
+            out['failures'].extend(kept[:40])
     except Exception:
         out['error'] = traceback.format_exc()[-1500:]
     out['wall_s'] = round(time.time() - t0, 2)
